@@ -85,7 +85,7 @@ def evolve(draw, routes):
     return out
 
 
-BREAKS = ['token-deleted', 'brace-dropped', 'unknown-keyword', 'out-of-range', 'raises', 'truncated', 'missing', 'directory']
+BREAKS = ['token-deleted', 'brace-dropped', 'unknown-keyword', 'out-of-range', 'raises', 'truncated', 'missing', 'directory', 'trailing']
 
 
 @st.composite
@@ -137,6 +137,7 @@ def cases(draw):
         'readd': draw(route_set()) if (n_old == 2 and len(new) == 1) else None,
         'mid': draw(evolve(old[0]['routes'])) if (session_up and draw(st.integers(0, 2)) == 0 and not any('v4only' in nb for nb in old + new)) else None,
         'mid_gap': draw(st.sampled_from([-1.0, -1.0, 0.0, 0.03, 0.3, 2.0])),
+        'pre_failed': [draw(st.sampled_from(['token-deleted', 'unknown-keyword', 'raises', 'truncated', 'brace-dropped', 'trailing', 'trailing'])), draw(st.integers(0, 10000)), draw(st.sampled_from([0.0, 0.3, 2.0]))] if draw(st.integers(0, 3)) == 0 else None,
     }
 
 
@@ -167,6 +168,9 @@ def broken(text: str, kind: str, at: int) -> str | None:
         bad = ['    route 70.9.0.0/24 next-hop 1.2.3.4 originator-id 1.2.3.999;', '    route 70.9.0.0/24 next-hop 1.2.3.4 community 70000:1;', '    route 70.9.0.0/24 next-hop 1.2.3.999;', '    route 70.9.0.0/24 next-hop 1.2.3.4 extended-community 0x0002;'][at % 4]
         lines.insert(idx[at % len(idx)] + 1, bad)
         return '\n'.join(lines)
+    if kind == 'trailing':
+        # every neighbor is defined before the parser meets the error
+        return text.rstrip('\n') + '\n' + ['frobnicate true;', 'neighbor 127.0.0.9 {\n  frobnicate true;\n}', 'neighbor 127.0.0.9 {\n  router-id 1.2.3.4;', 'process again {\n  run;\n}'][at % 4] + '\n'
     if kind == 'truncated':
         cut = 1 + at % max(1, len(text) - 2)
         return text[:cut]
@@ -265,6 +269,24 @@ def check(case: dict) -> dict:
                 text = new_text if kind is None else broken(new_text if case['new'] else old_text, kind, case['break_at'])
                 with open(path, 'w') as fh:
                     fh.write(text)
+            if case.get('pre_failed') is not None and kind is None:
+                # a reload that fails (the file defines the neighbors, then breaks) comes before the one judged
+                bad = broken(old_text, case['pre_failed'][0], case['pre_failed'][1])
+                if bad is not None:
+                    with open(path, 'w') as fh:
+                        fh.write(bad)
+                    n_results = len(results)
+                    hn.signal_reload()
+                    for _ in range(700):
+                        if len(results) > n_results:
+                            break
+                        await hn.sleep(0.01)
+                    out['pre_failed'] = (len(results) > n_results and not results[n_results])
+                    if len(results) > n_results and results[n_results]:
+                        raise Inconclusive('the file meant to fail was accepted (a truncation that leaves a valid file): not the history asked for')
+                    await hn.sleep(case['pre_failed'][2])
+                    with open(path, 'w') as fh:
+                        fh.write(text)
             if case.get('mid') is not None and kind is None:
                 # two reloads one behind the other: a first valid file (same neighbors, other routes) is loaded, and the file judged
                 # follows `mid_gap` seconds after that reload was executed (0: before the peers have looked at it)
@@ -444,7 +466,7 @@ def check(case: dict) -> dict:
             if old:
                 om = {r[0]: r for r in old['routes']}
                 changed = changed or any(r[0] in om and om[r[0]] != r for r in nb['routes'])
-        return {'nontrivial': changed or not case['session_up'] or case.get('mid') is not None, 'classes': classes + (['same-prefix-change'] if changed else [])}
+        return {'nontrivial': changed or not case['session_up'] or case.get('mid') is not None, 'classes': classes + (['same-prefix-change'] if changed else []) + (['failed-reload-before'] if out.get('pre_failed') else [])}
     # ---- failed reload: nothing may have changed
     classes.append('reload-failed')
     if kind is None:
@@ -477,6 +499,10 @@ def fixed_cases() -> list:
     out = []
     for up in (True, False):
         out.append({'no_process': False, 'old': [{'peer': 0, 'hold': 30, 'routes': [[0, 1, 0]]}, {'peer': 1, 'hold': 30, 'routes': [[0, 1, 0], [1, 2, 0]]}], 'new': [{'peer': 0, 'hold': 30, 'routes': [[0, 1, 0]]}], 'break': None, 'break_at': 0, 'session_up': up, 'api': [], 'via': 'signal', 'then_valid_reload': False, 'ribout': True, 'readd': [[2, 3, 0]]})
+    # a failed reload, then the reload that removes a neighbor, then one that configures it again
+    for up in (True, False):
+        for kind, at in (('trailing', 0), ('trailing', 1), ('trailing', 2), ('raises', 1), ('token-deleted', 9999)):
+            out.append({'no_process': False, 'old': [{'peer': 0, 'hold': 30, 'routes': [[0, 1, 0]]}, {'peer': 1, 'hold': 30, 'routes': [[0, 1, 0], [1, 2, 0]]}], 'new': [{'peer': 0, 'hold': 30, 'routes': [[0, 1, 0]]}], 'break': None, 'break_at': 0, 'session_up': up, 'api': [], 'via': 'signal', 'then_valid_reload': False, 'ribout': True, 'readd': [[2, 3, 0]], 'pre_failed': [kind, at, 0.3]})
     # two reloads one behind the other (old -> mid -> new): the first removes a route and adds one, the second changes nothing more / puts
     # the first state back; what the peer holds at the end is the last file
     for gap in (-1.0, 0.0, 0.3):
